@@ -380,6 +380,7 @@ extern "C" {
     fn dup2(old: i32, new: i32) -> i32;
     fn open(path: *const u8, flags: i32) -> i32;
     fn setrlimit(resource: i32, rlim: *const [u64; 2]) -> i32;
+    fn alarm(seconds: u32) -> u32;
 }
 
 /// address-space limit of an isolated child: a declared length that is absurd but still allocatable
@@ -389,6 +390,27 @@ const RLIMIT_AS: i32 = 9;
 
 /// Run `f` in a forked child and return what it produced; `(abort SIG)` if the child died.
 pub fn isolated(f: impl FnOnce() -> String) -> String {
+    isolated_t(1200, f)
+}
+
+/// All of `items` in one forked child; only when that child dies (abort, time limit) is each item run in a child
+/// of its own, so that the one that kills the process is identified and the others still get their result.
+pub fn isolated_batch<I>(items: &[I], f: impl Fn(&I) -> String) -> Vec<String> {
+    if items.is_empty() {
+        return Vec::new();
+    }
+    let all = isolated_t(120, || items.iter().map(|i| f(i).replace('\n', " ")).collect::<Vec<_>>().join("\n"));
+    let parts: Vec<String> = all.split('\n').map(|s| s.to_string()).collect();
+    if !all.starts_with("(abort") && parts.len() == items.len() {
+        return parts;
+    }
+    items.iter().map(|i| isolated_t(60, || f(i))).collect()
+}
+
+/// `isolated` with a wall-clock limit for the child: a child that is still running after `secs` seconds is
+/// killed by SIGALRM and reported as `(abort 14)` — a loader that spins on a hostile length is a finding, not
+/// a reason for the check never to end.
+pub fn isolated_t(secs: u32, f: impl FnOnce() -> String) -> String {
     unsafe {
         let mut fds = [0i32; 2];
         if pipe(fds.as_mut_ptr()) != 0 {
@@ -404,6 +426,7 @@ pub fn isolated(f: impl FnOnce() -> String) -> String {
             close(fds[0]);
             let lim = [CHILD_AS_LIMIT, CHILD_AS_LIMIT];
             setrlimit(RLIMIT_AS, &lim);
+            alarm(secs);
             // silence the allocation-failure message of the child
             let devnull = open(b"/dev/null\0".as_ptr(), 1);
             if devnull >= 0 {
